@@ -126,6 +126,16 @@ def _materialise(desc):
     elif v == 2:
         df["temperature"] = 200.0
         df["comment"] = "lab"  # columns the wrapper does not know about
+    elif v == 3 and len(df) >= 4:
+        # columns the wrapper never reads that are only PARTLY filled (Rs undefined above the bubble
+        # point, sparse lab measurements, leftovers of an outer merge): every row is still a table row
+        rs = np.linspace(100.0, 900.0, len(df))
+        rs[len(df) // 2 :] = np.nan
+        df["Rs"] = rs
+        lab = np.full(len(df), np.nan)
+        lab[:: max(2, len(df) // 5)] = 1.0
+        df["lab_point"] = lab
+        df["blank"] = np.nan
     return df
 
 
